@@ -46,13 +46,15 @@ def cells_job(j):
     w = st["world"]
     eng = w.engine({"coercer": counting_coercer})
     docs = []
-    for f in ["s", "sn", "i", "e", "le", "ls", "lo", "lnn", "p", "u", "lu", "o", "on", "nl", "ll"]:
+    for f in ["s", "sn", "i", "e", "le", "ls", "fl", "lfl", "idf", "bo", "lo", "lnn", "p", "u", "lu", "o", "on", "nl", "ll"]:
         fd = w.types["Query"]["fields"][f]
         named = fd["type"][-1]
         nodes = [N("OP", 0, "", "query"), N("F", 1, f)]
         if w.types[named]["kind"] in ("OBJECT", "INTERFACE"):
             nodes.append(N("F", 2, "s"))
         elif w.types[named]["kind"] == "UNION":
+            nodes.append(N("F", 2, "__typename"))
+        if w.types[named]["kind"] == "INTERFACE":
             nodes.append(N("F", 2, "__typename"))
         docs.append((f, nodes, [f]))
     for f in ["s", "sn", "i", "e"]:
@@ -63,6 +65,9 @@ def cells_job(j):
         for r in reps:
             vals.append((tok, r))
             vals.append(("[" + tok + "]", [r, r]))
+    # objects naming their runtime type in the three ways, incl. types that are possible for another abstract type only
+    for tn in ["A", "B", "C", "T", "Nope", "P", "E"]:
+        vals.append(("{_typename:%s}" % tn, {"_typename": tn, "_id": "x", "d": "dv"}))
     vals += [("X", "X"), ("[X,Y]", ["X", "Y"]), ("[X,Z]", ["X", "Z"]), ("Y", "Y"), ("{}", {}), ("[[...]]", [[{}], [None]]), ("[None]", [None, None])]
     records, meta, tid = [], {}, 0
     for name, nodes, target in docs:
@@ -80,6 +85,24 @@ def cells_job(j):
             records.append({"tid": tid, "nodes": nodes, "op": 1, "vars": [], "cls": "exec", "geom": project.geometry(doc.text),
                             "resp": project.response(resp), "ncalls": len(cs.calls), "coercerCalls": COUNT["n"]})
             meta[tid] = {"query": doc.text, "field": name, "token": tok, "value": repr(val)[:200], "response": repr(resp)[:1500]}
+    # history: a runtime type completed validly under one abstract type must still be refused under another
+    seqs = [("u", "C"), ("p", "C"), ("lp", "C"), ("p", "A"), ("u", "B"), ("lu", "B"), ("p", "B"), ("u", "B")]
+    for fname, tn in seqs:
+        nodes = [N("OP", 0, "", "query"), N("F", 1, fname), N("F", 2, "__typename")]
+        doc = render.DocText(nodes)
+        tid += 1
+        cs = CaseState({})
+        val = {"_typename": tn, "_id": "x", "d": "dv"}
+        cs.adversary = Fixed(w, [fname], [val, val] if fname.startswith("l") else val)
+        cs.ctx = {"__cs": cs}
+        COUNT["n"] = 0
+        try:
+            resp = main_loop().run(eng.execute(doc.text, context=cs.ctx))
+        except BaseException as e:
+            resp = {"__raised__": repr(e)}
+        records.append({"tid": tid, "nodes": nodes, "op": 1, "vars": [], "cls": "exec", "geom": project.geometry(doc.text),
+                        "resp": project.response(resp), "ncalls": len(cs.calls), "coercerCalls": COUNT["n"]})
+        meta[tid] = {"query": doc.text, "field": fname + "(history)", "token": tn, "value": repr(val), "response": repr(resp)[:800]}
     verdicts, tres = tracecheck.judge("Trace_resp.tla", "Trace_resp.cfg", records)
     viol, distinct = [], set()
     for r in records:
@@ -106,6 +129,8 @@ def job(j):
             return
         if len(st["cases"]) < j["max_cases"]:
             st["cases"].append(rec)
+        elif len(st["cases"]) >= j["max_cases"]:
+            raise StopIteration
 
     res = tlc.run("MC_exec.tla", "MC_exec_sim3.cfg", on_line=on_line, workers=1, simulate=j["behaviours"], depth=40, seed=seed, timeout=1500)
     w = st["world"]
